@@ -162,6 +162,10 @@ def main(tier: str) -> int:
                                 chk.fail("forward of a decoded net is not finite for un-scaled features and weights on the border of [-10, 10]",
                                          {**d, "weights": float(ext._weights[0]), "x_scale": 60.0}, {"fn": "decode", "clause": "forward"})
                         sched = NL.sched_json(net)
+                        fa = NL.sched_activation_faults(net)
+                        if fa:
+                            chk.fail("a decoded net violates a validity clause: the program its forward pass runs applies to a node another activation than the net carries for it",
+                                     {**d, **fa[0], "net": NL.net_json(net)}, {"fn": "decode", "clause": "activation_applied"})
                     except Exception as e:
                         chk.fail("forward of a decoded net raises / does not terminate", {**d, "error": repr(e)[:200]}, {"fn": "decode", "clause": "forward"})
                         sched = None
@@ -182,6 +186,10 @@ def main(tier: str) -> int:
                 chk.fail("a decoded net violates a validity clause: " + ", ".join(bad), {**d, "net": NL.net_json(net)}, {"fn": "decode", "clause": bad[0]})
             X = np.ones((2, nv))
             net.forward(X)
+            fa = NL.sched_activation_faults(net)
+            if fa:
+                chk.fail("a decoded net violates a validity clause: the program its forward pass runs applies to a node another activation than the net carries for it",
+                         {**d, **fa[0], "net": NL.net_json(net)}, {"fn": "decode", "clause": "activation_applied"})
             add({"op": "net_decode", "tree": NL.tree_syms(tree), "n_vars": nv, "n_out": nout, "out_act": 5 if nout > 1 else 4},
                 ("decode", d, (NL.canon_net(NL.net_json(net)), NL.sched_json(net))))
 
